@@ -556,7 +556,7 @@ def repeat(a, repeats, axis=None):
 
     if repeats == 0:
         return a[tuple(slice(None) if d != axis else slice(0) for d in range(a.ndim))]
-    elif repeats == 1:
+    elif repeats == 1 or a.shape[axis] == 0:
         return a
 
     cchunks = cached_cumsum(a.chunks[axis], initial_zero=True)
